@@ -5,6 +5,7 @@ import (
 	"errors"
 	"fmt"
 	"sync"
+	"sync/atomic"
 
 	"github.com/spikeekips/mitum/base"
 	"github.com/spikeekips/mitum/isaac"
@@ -158,11 +159,71 @@ func (b *Block) GetOperationFunc(jitter JitterFunc) isaac.OperationProcessorGetO
 	}
 }
 
+// Fault makes one harness-supplied callback fail. Site: getoperation (Index =
+// operation index), getstate (Index = n-th call), newprocessor (Index = n-th
+// call), preprocess / process (Index = n-th call of any built-in processor),
+// newwriter, empty (EmptyProposalNoBlock on and every operation already
+// known, so that no operation yields a result).
+type Fault struct {
+	Site  string
+	Index int
+	Err   error
+
+	count int64
+	fired int64
+}
+
+// Fired tells whether the fault was injected at least once.
+func (f *Fault) Fired() bool { return f != nil && atomic.LoadInt64(&f.fired) > 0 }
+
+func (f *Fault) hit(site string, index int) bool {
+	if f == nil || f.Site != site {
+		return false
+	}
+
+	hit := index == f.Index
+	if index < 0 { // count calls
+		hit = int(atomic.AddInt64(&f.count, 1))-1 == f.Index
+	}
+
+	if hit {
+		atomic.StoreInt64(&f.fired, 1)
+	}
+
+	return hit
+}
+
+type faultProcessor struct {
+	base.OperationProcessor
+	f *Fault
+}
+
+func (p faultProcessor) PreProcess(ctx context.Context, op base.Operation, g base.GetStateFunc) (
+	context.Context, base.OperationProcessReasonError, error,
+) {
+	if p.f.hit("preprocess", -1) {
+		return ctx, nil, p.f.Err
+	}
+
+	return p.OperationProcessor.PreProcess(ctx, op, g)
+}
+
+func (p faultProcessor) Process(ctx context.Context, op base.Operation, g base.GetStateFunc) (
+	[]base.StateMergeValue, base.OperationProcessReasonError, error,
+) {
+	if p.f.hit("process", -1) {
+		return nil, nil, p.f.Err
+	}
+
+	return p.OperationProcessor.Process(ctx, op, g)
+}
+
 // RunOpts of one processing of a block.
 type RunOpts struct {
 	Workers int64
 	Jitter  JitterFunc
 	Save    bool // after Process, Save with the matching ACCEPT voteproof
+	Fault   *Fault
 }
 
 // Result of one processing.
@@ -197,15 +258,56 @@ func (b *Block) NewProcessor(o RunOpts, hooks *WriterHooks) (*isaac.DefaultPropo
 
 	args := isaac.NewDefaultProposalProcessorArgs()
 	args.MaxWorkerSize = o.Workers
-	args.NewWriterFunc = b.Case.Env.NewWriterFunc(hooks, o.Workers)
+	newwriter := b.Case.Env.NewWriterFunc(hooks, o.Workers)
+	args.NewWriterFunc = func(pr base.ProposalSignFact, g base.GetStateFunc) (isaac.BlockWriter, error) {
+		if o.Fault.hit("newwriter", -1) {
+			return nil, o.Fault.Err
+		}
+
+		return newwriter(pr, g)
+	}
 	args.GetStateFunc = func(key string) (base.State, bool, error) {
 		o.Jitter.do("GetState", uint64(len(key)))
 
+		if o.Fault.hit("getstate", -1) {
+			return nil, false, o.Fault.Err
+		}
+
 		return b.Case.Prior.GetState(key)
 	}
-	args.GetOperationFunc = b.GetOperationFunc(o.Jitter)
-	args.NewOperationProcessorFunc = b.Case.Prior.NewOperationProcessorFunc()
-	args.EmptyProposalNoBlockFunc = func() bool { return false }
+
+	getop := b.GetOperationFunc(o.Jitter)
+	args.GetOperationFunc = func(ctx context.Context, oph, fact util.Hash) (base.Operation, error) {
+		if o.Fault != nil {
+			i, found := b.byHash[oph.String()]
+
+			switch {
+			case found && o.Fault.hit("getoperation", i):
+				return nil, o.Fault.Err
+			case o.Fault.Site == "empty":
+				atomic.StoreInt64(&o.Fault.fired, 1)
+
+				return nil, isaac.ErrOperationAlreadyProcessedInProcessor.Errorf("already processed")
+			}
+		}
+
+		return getop(ctx, oph, fact)
+	}
+
+	newopp := b.Case.Prior.NewOperationProcessorFunc()
+	args.NewOperationProcessorFunc = func(h base.Height, ht hint.Hint, g base.GetStateFunc) (base.OperationProcessor, error) {
+		if o.Fault.hit("newprocessor", -1) {
+			return nil, o.Fault.Err
+		}
+
+		opp, err := newopp(h, ht, g)
+		if err != nil || opp == nil || o.Fault == nil {
+			return opp, err
+		}
+
+		return faultProcessor{OperationProcessor: opp, f: o.Fault}, nil
+	}
+	args.EmptyProposalNoBlockFunc = func() bool { return o.Fault != nil && o.Fault.Site == "empty" }
 
 	return isaac.NewDefaultProposalProcessor(b.Proposal, b.Case.Prior.Previous, args)
 }
